@@ -154,6 +154,8 @@ class Seq:
                 ent = msteps[si]
                 si += 1
                 out, c, calls = parse_entry(ent)
+                if si == 1:
+                    c = "1"      # the downstream probe node always runs the first time it is needed
                 calls = self.translate_calls(calls, x)
                 last_out = out
                 exp.append(f"{out} c={c} calls={calls}")
